@@ -26,7 +26,7 @@ def c02() -> int:
         "default:DispatchBase>Idle",
     ]
     fsx(c, RES + ({"variant": "core"},), ("hivemc.bundles", "c02", {}), K=3 if quick else 4, H=7 if quick else 8, needs=needs)
-    fsx(c, GRID + ({"pairs": True},), ("hivemc.bundles", "c02", {}), K=2 if quick else 4, H=9 if quick else 11,
+    fsx(c, GRID + ({"pairs": True},), ("hivemc.bundles", "c02", {}), K=2 if quick else 3, H=9 if quick else 11,
         needs=["default:DispatchStation>ChargeQueueing", "default:DispatchBase>ReserveBase"])
     # vehicles with idle draw: one holds the DCFC plug for many steps, a nearly empty one queues and runs dry while waiting
     fsx(c, RES + ({"variant": "full", "mechs": ("thirsty", "thirsty", "quiet"), "name": "W-res/drain"},), ("hivemc.bundles", "c02", {}),
@@ -73,7 +73,7 @@ def c07() -> int:
     # on every reached state, every instruction of the full menu (far-away, missing, wrong-plug targets included) is applied and
     # the place invariant judged on the result: one more deviation than the search budget, from EVERY reached state
     fsx(c, RES + ({"variant": "core", "name": "W-res/menu-probe"},), ("hivemc.bundles", "c07_probe", {}), K=2, H=6 if quick else 8, needs=["c07:menu_probe"])
-    fsx(c, GRID + ({"pairs": True},), ("hivemc.bundles", "c07", {}), K=2 if quick else 4, H=10 if quick else 11, needs=["c07:pickup", "c07:dropoff"])
+    fsx(c, GRID + ({"pairs": True},), ("hivemc.bundles", "c07", {}), K=2 if quick else 3, H=10 if quick else 11, needs=["c07:pickup", "c07:dropoff"])
     # a base whose station stands on another cell (bases.csv and stations.csv carry independent coordinates)
     fsx(c, RES + ({"variant": "core", "split_base": True, "pairs": False, "name": "W-res/split-base"},), ("hivemc.bundles", "c07", {}), K=2 if quick else 3, H=7 if quick else 9,
         needs=["instr:Idle:ChargeBase:ChargingBase", "instr:ChargingStation:ChargeBase:ChargingStation|instr:Idle:ChargeBase:Idle"])
@@ -171,7 +171,7 @@ def c06() -> int:
     fsx(c, RES + ({"variant": "core"},), ("hivemc.bundles", "c06", {}), K=2 if quick else 3, H=7 if quick else 9,
         needs=["c06:judged:DispatchStation", "c06:judged:DispatchBase", "c06:judged:Repositioning", "c06:judged:ServicingTrip", "c06:mid_link_split"])
     fsx(c, REQ + ({},), ("hivemc.bundles", "c06", {}), K=3 if quick else 4, H=8 if quick else 10, needs=["c06:judged:DispatchTrip", "c06:judged:ServicingTrip"])
-    fsx(c, GRID + ({"pairs": True},), ("hivemc.bundles", "c06", {}), K=2 if quick else 4, H=10 if quick else 12,
+    fsx(c, GRID + ({"pairs": True},), ("hivemc.bundles", "c06", {}), K=2 if quick else 3, H=10 if quick else 12,
         needs=["c06:judged:DispatchStation", "c06:judged:DispatchBase", "c06:judged:Repositioning", "c06:judged:ServicingTrip", "c06:mid_link_split"])
     # requests that allow pooling (optional column of the request file), served by autonomous vehicles
     fsx(c, REQ + ({"requests": ["p0", "p1", "r2"], "name": "W-req/pooling"},), ("hivemc.bundles", "c06", {}), K=2 if quick else 3, H=8 if quick else 10,
